@@ -57,15 +57,20 @@ fn run_crash(scn: &Scenario, prop: &str, explore: bool) -> RunResult {
     let nested = prop == "C04";
     let root = w.root.clone();
     let mut ev = Eval::new(&root);
+    ev.lenient = power;
     let mut r = Rng::new(scn.seed, "crash-points");
     let mut found: Vec<(crate::world::Violation, CrashPoint)> = Vec::new();
+    let known: Vec<String> = crate::evidence::load_findings().into_iter().filter(|f| f.status == "known").map(|f| f.signature).collect();
+    let mut unknown = 0usize;
     // model at the start of each segment
     let seg_start_model = |w: &World, si: usize| -> Model {
         let first = w.recs.iter().find(|x| x.seg == si).map(|x| x.i).unwrap_or(0);
         if first == 0 { Model::default() } else { w.snaps.get(first - 1).cloned().unwrap_or_default() }
     };
     let history_broken = w.violations.iter().any(|v| v.props.iter().any(|p| p == "C01" || p == "PANIC"));
-    let props: Vec<&str> = vec![prop];
+    // C04 judges only what happens when the recovery itself is interrupted (and idempotence);
+    // the state of the first-level crash image is C02's subject
+    let props: Vec<&str> = if nested { vec!["C02-via-C04"] } else { vec![prop] };
     if history_broken {
         // the fault-free history itself misbehaved: that is C01's business, not a crash result
     } else if let Some(cp) = &scn.post {
@@ -76,7 +81,8 @@ fn run_crash(scn: &Scenario, prop: &str, explore: bool) -> RunResult {
             };
             let (cands, may_fail) = crash::allowed_states(&w, seg, cut, &seg_start_model(&w, cp.seg));
             let ne = if nested && cp.nested.is_empty() { Some((&mut r, 3usize)) } else { None };
-            found.extend(ev.eval(seg, cp, &cands, may_fail, &props, ne));
+            let ctx = crash::phase(&seg.log, cut, &scn.ops);
+            found.extend(ev.eval(seg, cp, &cands, may_fail, &props, &ctx, ne));
         }
     } else if explore {
         let per_seg = match (tier, nested) {
@@ -101,14 +107,27 @@ fn run_crash(scn: &Scenario, prop: &str, explore: bool) -> RunResult {
                 }
                 let cp = CrashPoint { seg: si, spec, nested: vec![] };
                 let ne = if nested { Some((&mut r, 3usize)) } else { None };
-                let vs = ev.eval(seg, &cp, &cands, may_fail, &props, ne);
-                let stop = !vs.is_empty();
-                found.extend(vs);
-                if stop && found.len() >= 3 {
+                let ctx = crash::phase(&seg.log, cut, &scn.ops);
+                let vs = ev.eval(seg, &cp, &cands, may_fail, &props, &ctx, ne);
+                for (v, c) in vs {
+                    if !v.props.iter().any(|p| p == prop) {
+                        continue;
+                    }
+                    // one representative per signature; listed known findings do not stop the search
+                    let sg = crate::evidence::signature(prop, &v.oracle, &v.sig);
+                    if found.iter().any(|(f, _)| crate::evidence::signature(prop, &f.oracle, &f.sig) == sg) {
+                        continue;
+                    }
+                    if !known.contains(&sg) {
+                        unknown += 1;
+                    }
+                    found.push((v, c));
+                }
+                if unknown >= 2 {
                     break;
                 }
             }
-            if found.len() >= 3 {
+            if unknown >= 2 {
                 break;
             }
         }
@@ -158,7 +177,13 @@ fn run_crash(scn: &Scenario, prop: &str, explore: bool) -> RunResult {
         .filter(|(v, _)| v.props.iter().any(|p| p == prop))
         .map(|(v, _)| ViolationRec::from(v))
         .collect();
-    if let Some((_, cp)) = found.iter().find(|(v, _)| v.props.iter().any(|p| p == prop)) {
+    // the repro scenario carries the crash point of the first violation that is not a listed finding
+    let pick = found
+        .iter()
+        .filter(|(v, _)| v.props.iter().any(|p| p == prop))
+        .find(|(v, _)| !known.contains(&crate::evidence::signature(prop, &v.oracle, &v.sig)))
+        .or_else(|| found.iter().find(|(v, _)| v.props.iter().any(|p| p == prop)));
+    if let Some((_, cp)) = pick {
         let mut s = scn.clone();
         s.post = Some(cp.clone());
         res.repro = Some(s);
